@@ -438,18 +438,30 @@ Fixpoint cand_blocks (g : list (name * vobj)) (cs : list name) : prog (list name
 (* fix (vacuum must not delete nodes that a remaining version reaches): the candidate nodes
    minus every node reachable from this tree, from the versions of the history that stay and
    from all current versions (one node per tree: the version's link) *)
-Fixpoint remaining_links (g : list (name * vobj)) (cs : list name) (cur : list name) (names : list name)
-         (acc : list name) : prog (list name) :=
+Fixpoint remaining_links (g : list (name * vobj)) (cs : list name) (cur mrg : list name) (before : time)
+         (names : list name) (acc : list name) : prog (list name) :=
   match names with
   | [] => Ret acc
   | n :: rest =>
       let keep (v : vobj) :=
         bind (load_tree v) (fun l =>
           match l with
-          | LTree _ => remaining_links g cs cur rest (match v_link v with Some x => x :: acc | None => acc end)
+          | LTree _ => remaining_links g cs cur mrg before rest (match v_link v with Some x => x :: acc | None => acc end)
           | LGone => Fail E_LOADTREE
           | LErr e => Fail e
           end) in
+      (* a superseded version under merged/ that the cutoff retains (fix 53c477f: it may belong to
+         a branch this handle never merged and share nodes with a deletable ancestor) *)
+      let from_merged :=
+        if mem n mrg && negb (mem n cs) then
+          bind (load_root_any [PMerged] n) (fun ro =>
+            match ro with
+            | Some v => if (match v_created v with Some cr => cr <? before | None => false end)
+                        then remaining_links g cs cur mrg before rest acc
+                        else keep v
+            | None => remaining_links g cs cur mrg before rest acc
+            end)
+        else remaining_links g cs cur mrg before rest acc in
       match (match find (fun kv => fst kv =? n) g with
              | Some (_, v) => if mem n cs then None else Some v
              | None => None
@@ -461,14 +473,14 @@ Fixpoint remaining_links (g : list (name * vobj)) (cs : list name) (cur : list n
           if mem n cur then
             bind (load_root_any [PCur] n) (fun ro =>
               match ro with
-              | None => remaining_links g cs cur rest acc
+              | None => from_merged
               | Some v => keep v
               end)
-          else remaining_links g cs cur rest acc
+          else from_merged
       end
   end.
 
-Definition keep_reachable (h : handle) (g : list (name * vobj)) (cs : list name) (blocks : list name)
+Definition keep_reachable (h : handle) (g : list (name * vobj)) (cs : list name) (before : time) (blocks : list name)
   : prog (list name) :=
   match blocks with
   | [] => Ret []
@@ -476,9 +488,14 @@ Definition keep_reachable (h : handle) (g : list (name * vobj)) (cs : list name)
       Do (RList PCur) (fun r =>
         match r with
         | RNames cur =>
-            let names := fold_right insert_sorted [] (map fst g ++ cur) in
-            bind (remaining_links g cs cur names (match h_link h with Some x => [x] | None => [] end)) (fun keep =>
-              Ret (filter (fun b => negb (mem b keep)) blocks))
+            Do (RList PMerged) (fun r2 =>
+              match r2 with
+              | RNames mrg =>
+                  let names := fold_right insert_sorted [] (map fst g ++ cur ++ mrg) in
+                  bind (remaining_links g cs cur mrg before names (match h_link h with Some x => [x] | None => [] end)) (fun keep =>
+                    Ret (filter (fun b => negb (mem b keep)) blocks))
+              | _ => Fail E_LIST
+              end)
         | _ => Fail E_LIST
         end)
   end.
@@ -487,7 +504,7 @@ Definition delete_historic (h : handle) (before : time) : prog unit :=
   if h_ro h then Fail E_RO else
   bind (load_graph 1000 (h_msources h) []) (fun g =>
     let cs := candidates before g in
-    bind (bind (cand_blocks g cs) (fun blocks0 => keep_reachable h g cs (fold_right insert_sorted [] blocks0))) (fun blocks =>
+    bind (bind (cand_blocks g cs) (fun blocks0 => keep_reachable h g cs before (fold_right insert_sorted [] blocks0))) (fun blocks =>
       bind (del_all PNode (fold_right insert_sorted [] blocks)) (fun _ =>
         bind (del_all PMerged cs) (fun _ =>
           match h_source h with
